@@ -114,7 +114,7 @@ def gen(rng, tier):
                 pad = form_of(rng, p, 2)
             else:
                 pad = form_of(rng, p, 2)
-        c = {"kind": kind, "ndim": ndim, "n": n, "p": p, "d": d, "k": k, "s": s, "reassign": rng.random() < 0.25,
+        c = {"kind": kind, "ndim": ndim, "n": n, "p": p, "d": d, "k": k, "s": s, "reassign": rng.random() < 0.25, "subclass": rng.random() < 0.15, "loop": rng.random() < 0.2,
              "input": seq_form(rng, n) if ndim == 2 else form_of(rng, n, 1) if kind == "util" else {"f": rng.choice(["int", "npint"]), "v": n, "dt": "int64"},
              "padding": pad, "dilation": form_of(rng, d, ndim), "stride": form_of(rng, s, ndim),
              "kernel": form_of(rng, k, ndim), "cin": rng.choice([1, 2, 3]), "cout": rng.choice([1, 2, 4]),
@@ -182,7 +182,7 @@ def run(c):
     exp = expected(c)
     forms = tuple(x if isinstance(x, str) else (x["f"], x.get("dt")) for x in
                   (c["input"], c["padding"], c["dilation"], c["stride"], c["kernel"]))
-    sig = (c["kind"], tuple(c["n"]), tuple(c["p"]), tuple(c["d"]), tuple(c["k"]), tuple(c["s"]), forms, c["pool"], c.get("stale"), bool(c.get("reassign")) and c["kind"] == "infer_conv")
+    sig = (c["kind"], tuple(c["n"]), tuple(c["p"]), tuple(c["d"]), tuple(c["k"]), tuple(c["s"]), forms, c["pool"], c.get("stale"), bool(c.get("reassign")) and c["kind"] == "infer_conv", bool(c.get("subclass")), bool(c.get("loop")))
     nontriv = (c["ndim"] == 2 and c["k"][0] != c["k"][1]) or any(x != 1 for x in c["s"] + c["d"]) or any(c["p"]) \
         or any(f[0] not in ("int",) for f in forms if not isinstance(f, str))
     fail = None
@@ -223,10 +223,20 @@ def run(c):
                                         "padding": mat(c["padding"])}}
         cin = c["cin"]
         want_out = [cin] + exp
+    if c.get("subclass"):
+        mid["subclass"] = True
     r = {"k": "NIRGraph", "nodes": {
         "in": {"k": "Input", "args": {"input_type": np.array([cin] + list(c["n"]), dtype=np.int64)}},
         "mid": mid, "out": {"k": "Output", "args": {"output_type": None}}},
         "edges": [("in", "mid"), ("mid", "out")]}
+    if c.get("loop"):
+        # a recurrent, type-consistent part in front of the layer: in -> rec, rec -> rec (self-loop), rec -> relay -> rec, rec -> mid
+        sh = tuple([cin] + list(c["n"]))
+        import math as _m
+        if _m.prod(int(x) for x in sh) <= 4096:
+            r["nodes"]["rec"] = {"k": "Scale", "args": {"scale": np.ones(sh, dtype="float32")}}
+            r["nodes"]["relay"] = {"k": "Threshold", "args": {"threshold": np.ones(sh, dtype="float32")}}
+            r["edges"] = [("in", "rec"), ("rec", "rec"), ("rec", "relay"), ("relay", "rec"), ("rec", "mid"), ("mid", "out")]
     if c.get("reassign") and c["kind"] == "infer_conv":
         # the convolution is first built around a weight with ANOTHER kernel size and then given its real weight (a field
         # assignment, e.g. after loading a checkpoint); inference must use the weight the node has when it runs
